@@ -43,6 +43,22 @@ add("C02", EXPL,
     "after a refused send (same, longer, different, shorter data). quick D=3 btcp / D=2 btls, thorough D=5 / D=3.",
     "Bounded as C01. Known findings (BTLS keeps refused bytes inside OpenSSL) are listed in known_findings.json.",
     "DESIGN.md 2/C02")
+add("C03", EXPL,
+    "A 'failing sender' is explored on every transport, non-blocking and blocking: sizes {0,1,65535,65536,2^20}, EAGAIN from the lower "
+    "layer at every write, EINTR (signal) at every blocking wait inside xcm_send, re-send or move-on policies, byte-stream retry "
+    "policies; every schedule/deviation pattern within D. Oracle: a message whose send returned -1 is never received, a refused call "
+    "(EAGAIN/EMSGSIZE/EINVAL/EINTR) leaves all counters unchanged and the connection usable, every accepted message is received "
+    "exactly once. quick D=3 tcp-class / D=2 TLS-class, thorough D=4 / D=3.",
+    "'As if the call had not been made' is read on counters and on the multiset finally delivered. Bounded as C01.",
+    "DESIGN.md 2/C03")
+add("C05", EXPL,
+    "A sleep monitor in the environment shim flags any primitive that may sleep (poll/ppoll/select/epoll_wait with timeout != 0, "
+    "sleeps, connect/accept/send/recv on a descriptor without O_NONBLOCK) issued while an API call on a non-blocking socket is in "
+    "progress. It watches (a) the complete product transport x connection phase (resolving, connecting, handshaking, ready, "
+    "back-pressured, closed, failed, server, every naming variant of both ends against late/failing/silent resolvers) x every API "
+    "operation and attribute access (h_nb), and (b) every execution of the explored two-endpoint traffic scenarios.",
+    "A call counts as sleeping if it issues a primitive that MAY sleep, whatever its outcome. Resolver = stub of the c-ares entry points.",
+    "DESIGN.md 2/C05")
 add("C04", EXPL,
     "Strict event-loop tasks (await, wait for xcm_fd, act) and blocking-mode tasks are run under every schedule and "
     "deviation pattern within the bound; quiescence (no descriptor readable, no timer armed, no environment event "
